@@ -1,7 +1,7 @@
 """C08 - After disturbances the cluster returns to OPERATION; nobody stays parked (structural conditions only)."""
 import ast
 from ..model import own_nodes, AnalysisError
-from ..paths import factmap, must_call, call_text, returns
+from ..paths import cf, factmap, must_call, call_text, returns
 from ..fsm import Fsm, WORKING, ENDING, rule_decisions_on_table
 from . import shared
 
@@ -64,9 +64,7 @@ def run(P, R):
     R.require(cs, 'FiniteStateMachine.on_state_event: call to self.next() not found')
     for c in cs:
         facts = [f for f in fm.at(c)]
-        ok = len(facts) == 1 and facts[0][1] and facts[0][0] in (
-            'status.identifier == self.state_modes.master_identifier',
-            'self.state_modes.master_identifier == status.identifier')
+        ok = len(facts) == 1 and tuple(facts[0]) == cf('status.identifier == self.state_modes.master_identifier', True)
         R.check(r3, ok, 'on_state_event re-evaluates when (and as soon as) the sender is the Master',
                 'hook|on_state_event', u.loc(c),
                 'on_state_event: next() is called under %s instead of exactly "sender is the Master"' %
@@ -161,7 +159,11 @@ def run(P, R):
         strat = [f[0].split('SupvisorsFailureStrategies.')[1] for f in facts
                  if f[1] and f[0].startswith('strategy == SupvisorsFailureStrategies.')
                  or f[1] and f[0].startswith('self.supvisors.options.supvisors_failure_strategy == SupvisorsFailureStrategies.')]
-        failing = any(f[0] == 'global_failure' and f[1] for f in facts)
+        # "a failure": the truthy first non-None result of the four failure checks (closed form: no local names)
+        closed = factmap(u).closed(node) if node is not None else set()
+        failing = any(pol and all(x in t for x in ('self._check_user_failure()', 'self._check_core_failure()',
+                                                   'self._check_strict_failure()', 'self._check_list_failure()'))
+                      and t.startswith('next(') for t, pol in closed)
         seen[k] = (strat, failing, node)
     want = {'SYNCHRONIZATION': 'RESYNC', 'SHUTTING_DOWN': 'SHUTDOWN'}
     for k, s in want.items():
